@@ -1,2 +1,175 @@
-(* C09 — placeholder until the per-unit theorems land *)
-From TFL Require Import Model.LatticeDykstra.
+(* C09 — units never interact.  Property theorems only; proofs live in
+   Proofs/LatticeUnits.v (Lattice), Proofs/LinearProject.v (Linear,
+   CategoricalCalibration) and Proofs/PWLProject.v (PWLCalibration).
+
+   Lattice.  The models (Model/LatticeFinalize.v, Model/LatticeDykstra.v) work on
+   the kernel as a tensor of shape  sizes ++ [units]  and perform explicit
+   per-unit reductions over all axes but the last (unit_viols, unit_vals).
+     slice sizes u W   = fun x => W (upd x (length sizes) u)      column u of W
+     lat1 c / dyk1 c   = the configuration c with units := 1       (Harness/H_C09.v)
+     teq sh f g        = f and g agree on every valid index of shape sh
+   The column theorems say: the multi-unit result restricted to unit u IS the
+   single-unit model run on unit u's column alone.  This is exactly the pair the
+   run-time tie compares (H_C09.check: single-unit model on column u against
+   column u of the implementation's multi-unit result).
+
+   Hypotheses  lat_units_wf / dyk_units_wf : no constrained dimension (monotone
+   dimension, trust / dominance / joint pair, joint-unimodality dimension) is the
+   unit axis.  They hold for every configuration accepted by
+   verify_hyperparameters (C09_accepted_configs_wf) and they are necessary: with
+   a trust or monotonicity flag on the unit axis the statement is false (cummax /
+   the behind set would run across units).  Satisfiable: Examples exu_lat_wf,
+   exu_dyk_wf, exu_hyps, exu_not_vacuous in Proofs/LatticeUnits.v (2 x 3 lattice,
+   3 units with columns of magnitude 1 / 100 / 1000, all constraint kinds on; the
+   three result columns are pairwise different and differ from the input).
+
+   Statement form.  sim sizes u A W  :=  forall x, uix sizes x -> A x == W (upd x ud u)
+   (A is column u of W on every index of the kernel's rank with unit coordinate 0).
+   Every pass maps sim-related kernels to sim-related kernels (.._simulation);
+   the _column theorems are the instances A := slice sizes u W.  With units = 1,
+   u = 0 the same statements say that each single-unit pass respects pointwise
+   equality of kernels, which is what lets the passes compose. *)
+From TFL Require Import Proofs.LatticeSpecFacts Model.LatticeDykstra Harness.H_C09 Proofs.LatticeUnits.
+From TFL Require Import Model.LinearProject Proofs.LinearProject Model.PWLProject Proofs.PWLProject.
+Open Scope Q_scope.
+
+(* ---------------- Lattice: finalize_constraints ---------------- *)
+Theorem C09_lattice_finalize_column : forall (c : lat_cfg) (u : nat),
+  (u < l_units c)%nat -> lat_units_wf c -> forall W : tens,
+  teq (l_shape (lat1 c)) (finalize (lat1 c) (slice (l_sizes c) u W)) (slice (l_sizes c) u (finalize c W)).
+Proof. exact lattice_finalize_column. Qed.
+Print Assumptions C09_lattice_finalize_column.
+
+(* strict LatticeConstraints.__call__ after the Dykstra stage: finalize (if the
+   block ran) and the final clip *)
+Theorem C09_lattice_constraint_after_dykstra_column : forall (c : lat_cfg) (u : nat),
+  (u < l_units c)%nat -> lat_units_wf c -> forall (ran : bool) (W : tens),
+  teq (l_shape (lat1 c)) (lattice_constraint_after_dykstra (lat1 c) ran (slice (l_sizes c) u W))
+                         (slice (l_sizes c) u (lattice_constraint_after_dykstra c ran W)).
+Proof. exact lattice_constraint_after_dykstra_column. Qed.
+Print Assumptions C09_lattice_constraint_after_dykstra_column.
+
+Theorem C09_lattice_finalize_simulation : forall (c : lat_cfg) (u : nat),
+  (u < l_units c)%nat -> lat_units_wf c -> forall A W : tens,
+  sim (l_sizes c) u A W -> sim (l_sizes c) u (finalize (lat1 c) A) (finalize c W).
+Proof. exact sim_finalize. Qed.
+Print Assumptions C09_lattice_finalize_simulation.
+
+(* the single passes (any monotone-dimension list / trust lists off the unit axis) *)
+Theorem C09_lattice_monotonicity_pass_column : forall (sizes : list nat) (units u : nat), (u < units)%nat ->
+  forall (monos : list nat) (W : tens), ~ In (ud sizes) monos ->
+  teq (sh1 sizes) (approx_mono (sh1 sizes) monos (slice sizes u W)) (slice sizes u (approx_mono (sh sizes units) monos W)).
+Proof. exact approx_mono_column. Qed.
+Print Assumptions C09_lattice_monotonicity_pass_column.
+
+Theorem C09_lattice_bounds_pass_column : forall (sizes : list nat) (units u : nat), (u < units)%nat ->
+  forall (omin omax : option Q) (W : tens),
+  teq (sh1 sizes) (approx_bounds (sh1 sizes) (ud sizes) 1 omin omax (slice sizes u W))
+                  (slice sizes u (approx_bounds (sh sizes units) (ud sizes) units omin omax W)).
+Proof. exact approx_bounds_column. Qed.
+Print Assumptions C09_lattice_bounds_pass_column.
+
+Theorem C09_lattice_clip_column : forall (sizes : list nat) (units u : nat), (u < units)%nat ->
+  forall (omin omax : option Q) (W : tens),
+  teq (sh1 sizes) (clip_bounds (sh1 sizes) omin omax (slice sizes u W)) (slice sizes u (clip_bounds (sh sizes units) omin omax W)).
+Proof. exact clip_bounds_column. Qed.
+Print Assumptions C09_lattice_clip_column.
+
+Theorem C09_lattice_edgeworth_pass_column : forall (sizes : list nat) (units u : nat), (u < units)%nat ->
+  forall (ts : list trust) (W : tens), (forall t, In t ts -> trust_off_unit sizes t) ->
+  teq (sh1 sizes) (approx_edgeworth (sh1 sizes) (ud sizes) 1 ts (slice sizes u W))
+                  (slice sizes u (approx_edgeworth (sh sizes units) (ud sizes) units ts W)).
+Proof. exact approx_edgeworth_column. Qed.
+Print Assumptions C09_lattice_edgeworth_pass_column.
+
+(* both modes: per-unit scalar corrections (Edgeworth trusts present; the prior
+   violation lists ts_l / ts_r are per unit) and element-wise corrections *)
+Theorem C09_lattice_trapezoid_pass_column : forall (sizes : list nat) (units u : nat), (u < units)%nat ->
+  forall (trap edge : list trust) (W : tens), (forall t, In t trap -> trust_off_unit sizes t) ->
+  teq (sh1 sizes) (approx_trapezoid (sh1 sizes) (ud sizes) 1 trap edge (slice sizes u W))
+                  (slice sizes u (approx_trapezoid (sh sizes units) (ud sizes) units trap edge W)).
+Proof. exact approx_trapezoid_column. Qed.
+Print Assumptions C09_lattice_trapezoid_pass_column.
+
+(* the per-unit reduction itself (tf.reduce_max over all axes but the last):
+   entry u of the multi-unit violation vector is the single entry of the
+   single-unit vector computed from column u *)
+Theorem C09_lattice_unit_violation_column : forall (sizes : list nat) (units u : nat), (u < units)%nat ->
+  forall (B : list idx) (g : idx -> Q), (forall b, In b B -> length b = S (ud sizes)) ->
+  nth 0 (unit_viols (ud sizes) 1 B (fun y => g (lift sizes u y))) 0 == nth u (unit_viols (ud sizes) units B g) 0.
+Proof. exact unit_viols_column. Qed.
+Print Assumptions C09_lattice_unit_violation_column.
+
+(* ---------------- Lattice: project_by_dykstra ---------------- *)
+Theorem C09_lattice_dykstra_column : forall (c : dyk_cfg) (u : nat),
+  (u < k_units c)%nat -> dyk_units_wf c -> forall W : tens,
+  teq (k_shape (dyk1 c)) (project_by_dykstra (dyk1 c) (slice (k_sizes c) u W)) (slice (k_sizes c) u (project_by_dykstra c W)).
+Proof. exact lattice_dykstra_column. Qed.
+Print Assumptions C09_lattice_dykstra_column.
+
+Theorem C09_lattice_dykstra_simulation : forall (c : dyk_cfg) (u : nat),
+  (u < k_units c)%nat -> dyk_units_wf c -> forall A W : tens,
+  sim (k_sizes c) u A W -> sim (k_sizes c) u (project_by_dykstra (dyk1 c) A) (project_by_dykstra c W).
+Proof. exact sim_project_by_dykstra. Qed.
+Print Assumptions C09_lattice_dykstra_simulation.
+
+(* the single-unit and the multi-unit sweep consist of the same constraint
+   groups in the same order (the skip rules depend on lattice sizes only) *)
+Theorem C09_lattice_dykstra_same_groups : forall (c : dyk_cfg) (u : nat),
+  (u < k_units c)%nat -> dyk_units_wf c -> map fst (group_ops (dyk1 c)) = map fst (group_ops c).
+Proof. exact group_ops_keys. Qed.
+Print Assumptions C09_lattice_dykstra_same_groups.
+
+(* ---------------- Lattice: the whole constraint, flat kernels ---------------- *)
+(* lattice_constraint_model (Harness/H_C09.v) = Dykstra stage, finalize, clip
+   on row-major flat lists, strict and non-strict.  W is the (vertices x units)
+   kernel given by rows; flat_column sizes units u r = entries v * units + u of r. *)
+Theorem C09_lattice_constraint_column : forall (dc : dyk_cfg) (lc : lat_cfg) (ran strict : bool) (W : list (list Q)) (u : nat),
+  k_sizes dc = l_sizes lc -> k_units dc = l_units lc -> dyk_units_wf dc -> lat_units_wf lc ->
+  (u < l_units lc)%nat -> (forall r, In r W -> length r = l_units lc) ->
+  qleq (lattice_constraint_model (dyk1 dc) (lat1 lc) ran strict (column u W))
+       (flat_column (l_sizes lc) (l_units lc) u (lattice_constraint_model dc lc ran strict (concat W))).
+Proof. exact lattice_constraint_column. Qed.
+Print Assumptions C09_lattice_constraint_column.
+
+(* flat_column of a matrix given by rows is the matrix column *)
+Theorem C09_flat_column_is_matrix_column : forall (sizes : list nat) (units u : nat) (R : list (list Q)),
+  (u < units)%nat -> length R = nprod sizes -> (forall r, In r R -> length r = units) ->
+  flat_column sizes units u (concat R) = column u R.
+Proof. exact flat_column_concat. Qed.
+Print Assumptions C09_flat_column_is_matrix_column.
+
+(* permuting (more generally: selecting, s need not be a bijection) the unit
+   columns of the kernel permutes the result columns *)
+Theorem C09_lattice_permutation : forall (dc : dyk_cfg) (lc : lat_cfg) (ran strict : bool) (W : list (list Q)) (s : nat -> nat) (u : nat),
+  k_sizes dc = l_sizes lc -> k_units dc = l_units lc -> dyk_units_wf dc -> lat_units_wf lc ->
+  (u < l_units lc)%nat -> (s u < l_units lc)%nat -> (forall r, In r W -> length r = l_units lc) ->
+  qleq (flat_column (l_sizes lc) (l_units lc) u
+          (lattice_constraint_model dc lc ran strict (concat (permute_columns (l_units lc) s W))))
+       (flat_column (l_sizes lc) (l_units lc) (s u) (lattice_constraint_model dc lc ran strict (concat W))).
+Proof. exact lattice_permutation. Qed.
+Print Assumptions C09_lattice_permutation.
+
+(* every configuration accepted by verify_hyperparameters keeps its constraints
+   off the unit axis *)
+Theorem C09_accepted_configs_wf : forall c : lat_cfg, cfg_valid c -> lat_units_wf c.
+Proof. exact cfg_valid_units_wf. Qed.
+Print Assumptions C09_accepted_configs_wf.
+
+(* ---------------- Linear, CategoricalCalibration, PWLCalibration ---------------- *)
+Theorem C09_linear_column : forall rt c units W R u,
+  lin_valid c (length W) -> lin_project rt c units W = Some R -> (u < units)%nat ->
+  exists r, lin_project_col rt c (column u W) = Some r /\ column u R = r.
+Proof. exact lin_per_unit. Qed.
+Print Assumptions C09_linear_column.
+
+Theorem C09_categorical_column : forall ps lo hi units W R u,
+  cat_project ps lo hi units W = Some R -> (u < units)%nat ->
+  exists r, cat_project_col ps lo hi (column u W) = Some r /\ column u R = r.
+Proof. exact cat_per_unit. Qed.
+Print Assumptions C09_categorical_column.
+
+Theorem C09_pwl_column : forall c units W u, (u < units)%nat ->
+  column u (pwl_project c units W) = pwl_project_col c (column u W).
+Proof. exact pwl_project_per_unit. Qed.
+Print Assumptions C09_pwl_column.
